@@ -34,12 +34,56 @@ def _facts(ctx, fi, stmt, enclosing_only=False):
     return out, exprs
 
 
+def _expression_guards(ctx, fi, use_node, name):
+    """facts that hold whenever `name` is read inside the expressions of this node because of the expression's own
+    control flow: the test of an enclosing conditional expression (with the polarity of the branch the read is in)
+    and the operands to the left in an enclosing `and` (true) / `or` (false)"""
+    par = ctx.parents(fi)
+    per_read = []
+    for e in cfgmod.node_exprs(use_node):
+        for sub in ast.walk(e):
+            if isinstance(sub, ast.Name) and sub.id == name and isinstance(sub.ctx, ast.Load):
+                facts = set()
+                cur = sub
+                while cur is not None and cur is not e:
+                    p = par.get(id(cur))
+                    if p is None:
+                        break
+                    if isinstance(p, ast.IfExp) and cur is not p.test:
+                        for t, pol in ex.conjuncts(p.test, cur is p.body):
+                            facts.add(_norm_fact(t, pol))
+                    if isinstance(p, ast.BoolOp):
+                        for v in p.values:
+                            if v is cur:
+                                break
+                            for t, pol in ex.conjuncts(v, isinstance(p.op, ast.And)):
+                                facts.add(_norm_fact(t, pol))
+                    cur = p
+                per_read.append(facts)
+    if not per_read:
+        return set()
+    out = per_read[0]
+    for f in per_read[1:]:
+        out &= f
+    return out
+
+
+def _norm_fact(t, p):
+    if isinstance(t, ast.Compare) and len(t.ops) == 1 and isinstance(t.ops[0], (ast.IsNot, ast.NotEq)):
+        import copy
+        t2 = copy.deepcopy(t)
+        t2.ops = [ast.Is() if isinstance(t.ops[0], ast.IsNot) else ast.Eq()]
+        return (norm(t2), not p)
+    return (norm(t), p)
+
+
 def _correlated(ctx, fi, use_node, name):
     """some assignment of `name` sits under conditions that all hold again at the use, over
     expressions that are not modified in between: the assignment has then been executed."""
     if use_node.stmt is None:
         return False
     U, _ = _facts(ctx, fi, use_node.stmt)
+    U = set(U) | _expression_guards(ctx, fi, use_node, name)
     if not U:
         return False
     par = ctx.parents(fi)
